@@ -423,22 +423,18 @@ int32 String :: ReplaceAux(const Hashtable<String, String> & beforeToAfter, uint
    // Build up a map of what substrings to replace at what offsets into the original-string
    Hashtable<uint32, uint32> sourceOffsetToPairIndex;
    {
-      Queue<const char *> states;
-      if (states.EnsureSize(numPairs, true).IsError()) return -1; // so we won't have to worry about reallocs below
-      for (uint32 i=0; i<numPairs; i++) states[i] = beforeStrs[i]->Cstr();
-
+      const char * origStr = Cstr();
       for (uint32 i=0; i<origStrLength; i++)
       {
-         const char c = (*this)[i];
+         // Test each before-string at each offset, so that matches that begin inside another (partial or complete) match aren't missed
          for (uint32 j=0; j<numPairs; j++)
          {
-            if (*states[j] != c) states[j] = beforeStrs[j]->Cstr();  // match failed: back to initial state!
-            if ((*states[j] == c)&&(*(++states[j]) == '\0'))
+            const String & before = *beforeStrs[j];
+            if ((before.Length() <= (origStrLength-i))&&(memcmp(origStr+i, before(), before.Length()) == 0))
             {
-               // We got to the NUL byte so we found a match for this before-string!  Record where and what it is for later
-               uint32 * pairIdx = sourceOffsetToPairIndex.GetOrPut(1+i-beforeStrs[j]->Length(), MUSCLE_NO_LIMIT);
-               if (pairIdx) *pairIdx = muscleMin(*pairIdx, j);  // earlier key/value pairs get precedence when there are two matches at the same offset
-                       else return -1;
+               // We found a match for this before-string!  Record where and what it is for later
+               if (sourceOffsetToPairIndex.Put(i, j).IsError()) return -1;
+               break;  // earlier key/value pairs get precedence when there are two matches at the same offset
             }
          }
       }
